@@ -69,6 +69,15 @@ INFO = {
  'C15-m3': ('failure case and ref appended before the element-type check', 'a subscription with a context and an incompatible element type, then a cancellation during the parked publish: another subscription loses its delivery (or a bounds panic)'), 'C15-m4': ("duplicate Subscribe allowed when the existing subscription's context is cancelled", 'Subscribe, cancel, Subscribe again before Unsubscribe: no panic, registry entry overwritten'), 'C16-m3': ("ChainAfterFunc's primary hook becomes 'if stop() && other.Err() == nil'", 'both contexts cancelled within a few hundred ns by different goroutines: f never runs'), 'C16-m4': ("ChainAfterFunc's primary hook checks other.Err() first and then calls stop(); f() unconditionally", 'other cancelled between the liveness check and stop() (hook chain.primary sits there): f runs twice'), 'C17-m3': ('wait() skips close(stop) when the instance function has already returned', 'an instance function returning on its own while held: its stop channel is never closed'), 'C17-m4': ("Do restarts a 'dead' instance (new running() helper) while the old watcher is alive", 'fn returns early, a second Do starts another instance, first holder done: the orphaned watcher closes the second stop channel while held'), 'C18-m3': ('named results in the retry closure: a stale result survives to the cancellation return', 'an operation returning a non-nil result with a plain error, then cancellation'), 'C18-m4': ("isFatalError becomes 'unpackFatalError(err) != err'", 'a plain error of an uncomparable dynamic type: runtime panic comparing interfaces'),
  'C19-m3': ('CallResultsSlice grows the target slice when the option is applied', 'a valid CallResultsSlice option followed by a failing option: the target was touched on the error path'), 'C19-m4': ("CallArgs hoists 'in'/'err' into the option's outer scope (shared by every application)", 'one option value applied concurrently to callables of different signatures'), 'C20-m3': ("'last = t' dropped: the clamp only compares with the initial timestamp", 'short rates or jitter with a prompt receiver: timestamps go backwards'), 'C20-m4': ("post-tick guard only when the buffer is empty ('len(c) == 0 && ctx.Err() != nil')", 'buffer full at cancellation and a receive between the guard and the send: unchecked ticks after cancel'),
 
+ # round 3 (asked for hard-to-detect changes: cooperating edits, rarely combined calls, delayed effects, three parties)
+ 'C01-m5': ("two cooperating edits: consumer.Get checks 'closed' before taking the mutex; Buffer.get no longer errors for an unknown consumer", 'a Get queued behind Close on a buffer that never shifted: it returns buffer[0] (a committed value) with a nil error'),
+ 'C01-m6': ('Buffer.commit nils the values every consumer has committed, before the cleaner shifts them', 'a consumer created during the cooldown reads nil instead of the retained values'),
+ 'C02-m5': ('Buffer.Diff reads the buffer size in a separate lock section', 'a cleaner shift between the two sections while Range evaluates the last value: Diff over-reports and Buffer.Range blocks'),
+ 'C02-m6': ("Buffer.Put keeps the caller's variadic slice when nothing is buffered (independent rediscovery of C01-4)", 'a producer reusing its batch slice while reads are uncommitted: Rollback returns different values'),
+ 'C05-m5': ("getAsync's predicate treats a nil value as 'nothing there yet'", 'a Get already parked when Put(nil) arrives: never woken'),
+ 'C05-m6': ("two cooperating edits: getAsync's result channel unbuffered; Get bails out early if its ctx is cancelled before it parks", 'cancellation between the synchronous miss and the park: the sender goroutine blocks forever holding the buffer lock (everything wedges later)'),
+ 'C06-m5': ("Send skips the acknowledgement wait when exactly one subscriber received ('for sent > 1 && pongN != 0')", 'a lone slow subscriber, then a newcomer before its Wait, then the next Send: the leftover pong lets the newcomer receive twice'),
+
 }
 
 def main():
@@ -93,7 +102,7 @@ def main():
             'property': prop,
             'summary': summary,
             'needs_to_manifest': needs,
-            'origin': 'fresh sub-agent given only the property text and its own scratch git worktree of /repo' + (' (round 2: it was additionally told, in one line each, which changes other sub-agents had already produced for this property, so as to get a different mechanism)' if int(m) >= 3 else ''),
+            'origin': 'fresh sub-agent given only the property text and its own scratch git worktree of /repo' + (' (round 2: it was additionally told, in one line each, which changes other sub-agents had already produced for this property, so as to get a different mechanism)' if int(m) in (3, 4) else (' (round 3: told which changes already existed and asked for hard-to-detect ones: cooperating edits, rarely combined calls, delayed effects, three-party windows)' if int(m) >= 5 else '')),
             'demo': os.path.basename(demo),
             'demo_cmd': 'go test -vet=off%s -count=1 -run TestZZDemo . (in a checkout of /repo HEAD with the demo file copied in)' % conf.get('demo_flags', ''),
             'confirmed_by': 'tools/confirm_seed.sh in a scratch worktree of /repo HEAD (removed afterwards)',
